@@ -118,6 +118,24 @@ Theorem C20_success_not_recycled : forall r s0 a mid1 obj now c mid2,
   alookup a (nodes (fst (step r s2 (Fire a)))) <> None.
 Proof. exact success_not_recycled. Qed.
 
+(* a rule reload that keeps the circuit-breaker part (identical rule, or only RecoveryIntervalMs /
+   RecycleIntervalS / MaxRecoveryAttempts / the check function changed) is the model's Reload: it
+   changes nothing, and wherever it falls between a node's scheduling, its successful completion
+   and its timer, the recovered node is not recycled *)
+Theorem C20_reload_changes_nothing : forall r s, step r s Reload = (s, ONone).
+Proof. exact reload_id. Qed.
+
+Theorem C20_success_not_recycled_across_reload : forall r s0 a pre post obj now c mid2a mid2b,
+  alookup a (rstatus s0) <> None ->
+  Forall (not_fire a) pre -> Forall (not_fire a) post ->
+  Forall (not_fire a) mid2a -> Forall (not_fire a) mid2b ->
+  let s1 := exec r s0 (pre ++ Reload :: post) in
+  alookup obj (live s1) = Some c -> c_outlier c = true -> 0 < a ->
+  let s2 := exec r (fst (step r s1 (Exit obj now a false))) (mid2a ++ Reload :: mid2b) in
+  nodes (fst (step r s2 (Fire a))) = nodes s2 /\
+  alookup a (nodes (fst (step r s2 (Fire a)))) <> None.
+Proof. exact success_not_recycled_across_reload. Qed.
+
 (* conversely the timer of a scheduled node that never recovered removes its breaker *)
 Theorem C20_unrecovered_recycled : forall r s a,
   alookup a (rstatus s) = Some false ->
@@ -146,6 +164,8 @@ Example C20_nonvacuous :
   /\ rstatus s = [(1, false); (2, false); (3, false)]
   (* node 1 recovers through a successful probe and survives its timer; node 2 does not *)
   /\ akeys (nodes (exec ex_rule s [Enter 1 true 2000 [1; 2; 3; 4]; Exit 1 2001 1 false; Fire 1; Fire 2])) = [1; 3; 4]
+  (* the same with a reload before the probe and another one before the timers *)
+  /\ akeys (nodes (exec ex_rule s [Reload; Enter 1 true 2000 [1; 2; 3; 4]; Exit 1 2001 1 false; Reload; Fire 1; Fire 2])) = [1; 3; 4]
   (* a request without outlier check on the refurbished context reports nothing *)
   /\ snd (step ex_rule s (Enter 1 false 1004 [])) = OLists [] [].
 Proof. vm_compute. repeat split. Qed.
@@ -162,4 +182,6 @@ Print Assumptions C20_half_open_exact.
 Print Assumptions C20_probes_means.
 Print Assumptions C20_half_open_disjoint.
 Print Assumptions C20_success_not_recycled.
+Print Assumptions C20_reload_changes_nothing.
+Print Assumptions C20_success_not_recycled_across_reload.
 Print Assumptions C20_unrecovered_recycled.
